@@ -102,6 +102,9 @@ theorem run_good (fuel : Nat) : ∀ (s : S) (prog : List Stmt) (last : Option Va
           obtain ⟨g', hc, hns, ext, hext⟩ := retrieve_good s s' n d v g hr
           obtain ⟨g2, hc2, hns2, ext2, hext2⟩ := ih s' rest v g'
           exact ⟨g2, hc2.trans hc, hns2.trans hns, ext ++ ext2, by rw [hext2, hext, List.append_assoc]⟩
+      | get n =>
+        simp only [run]
+        exact ih s rest last g
       | nameScope n body =>
         simp only [run]
         have g0 : Good { s with nameScopes := s.nameScopes ++ [n] } := ⟨g.pf, g.si⟩
